@@ -16,6 +16,7 @@ from __future__ import annotations
 ID = 'PB'
 LEVEL = 'proof'
 BY_PROPERTY = {
+    'C01': [('Mahotas.Proofs.PyBodyTiesC01', ['Mahotas.pybody_morph_disk_eq_model', 'Mahotas.pybody_morph_disk_diskElem'])],
     'C02': [('Mahotas.Proofs.PyBodyTiesC02',
              ['Mahotas.pybody_morph_open_eq_model', 'Mahotas.pybody_morph_close_eq_model',
               'Mahotas.pybody_morph_cerode_eq_model', 'Mahotas.pybody_morph_cdilate_eq_model',
@@ -26,7 +27,8 @@ BY_PROPERTY = {
                                               'Mahotas.pybody_thresholding_otsu_eq_model',
                                               'Mahotas.pybody_thresholding_soft_threshold_eq_model']),
             ('Mahotas.Proofs.PyBodyTiesC16Rc', ['Mahotas.pybody_thresholding_rc_eq_model', 'Mahotas.pybody_rc_guard',
-                                                'Mahotas.pybody_rc_maxt'])],
+                                                'Mahotas.pybody_rc_maxt']),
+            ('Mahotas.Proofs.PyBodyTiesC16b', ['Mahotas.pybody_morph_circle_se_eq_model', 'Mahotas.pybody_morph_circle_se_circleSe'])],
     'C14': [('Mahotas.Proofs.PyBodyTiesC14',
              ['Mahotas.pybody_morph__remove_centre_eq_model', 'Mahotas.pybody_offsets_remove_centre',
               'Mahotas.pybody_morph_locmax_eq_model', 'Mahotas.pybody_morph_locmin_eq_model',
@@ -36,7 +38,25 @@ BY_PROPERTY = {
                                               'Mahotas.pybody_stretch_stretch_eq_stretchList',
                                               'Mahotas.pybody_stretch_stretch_eq_stretchIntG',
                                               'Mahotas.pybody_colors_rgb2xyz_eq_model', 'Mahotas.pybody_colors_rgb2xyz_pixel',
-                                              'Mahotas.pybody_colors_xyz2rgb_eq_model', 'Mahotas.pybody_colors_xyz2rgb_pixel'])],
+                                              'Mahotas.pybody_colors_xyz2rgb_eq_model', 'Mahotas.pybody_colors_xyz2rgb_pixel']),
+            ('Mahotas.Proofs.PyBodyTiesC20b', ['Mahotas.pybody_colors_rgb2grey_eq_model', 'Mahotas.pybody_colors_rgb2grey_pixel',
+                                               'Mahotas.pybody_colors_xyz2lab_pixel', 'Mahotas.pybody_colors_rgb2lab_eq_model',
+                                               'Mahotas.pybody_colors_rgb2lab_pixel', 'Mahotas.pybody_colors_rgb2sepia_eq_model'])],
+    'C13': [('Mahotas.Proofs.PyBodyTiesC13', ['Mahotas.pybody_labeled_labeled_sum_eq_model', 'Mahotas.pybody_labeled_labeled_max_eq_model',
+                                              'Mahotas.pybody_labeled_labeled_min_eq_model', 'Mahotas.pybody_labeled_labeled_size_eq_model',
+                                              'Mahotas.pybody_labeled_remove_regions_where_eq_model',
+                                              'Mahotas.pybody_labeled_remove_regions_eq_model',
+                                              'Mahotas.pybody_labeled_is_same_labeling_eq_model',
+                                              'Mahotas.pybody_labeled_bwperim_eq_model', 'Mahotas.pybody_labeled_bwperim_binary'])],
+    'C15': [('Mahotas.Proofs.PyBodyTiesC15', ['Mahotas.pybody_euler_euler_eq_model', 'Mahotas.pybody_thin_thin_eq_model',
+                                              'Mahotas.pybody_bbox_ordered'])],
+    'C17': [('Mahotas.Proofs.PyBodyTiesC17', ['Mahotas.pybody_convolve__wavelet_center_compute_eq_model',
+                                              'Mahotas.pybody_convolve_wavelet_center_eq_model',
+                                              'Mahotas.pybody_convolve_wavelet_decenter_eq_model'])],
+    'C18': [('Mahotas.Proofs.PyBodyTiesC18', ['Mahotas.pybody_resize_resize_to_eq_model', 'Mahotas.pybody_resize_imresize_eq_model']),
+            ('Mahotas.Proofs.PyBodyTiesC18b', ['Mahotas.pybody_interpolate_zoom_output_shape_eq_model',
+                                               'Mahotas.pybody_interpolate_zoom_output_shape_zoomOutShape'])],
+    'C19': [('Mahotas.Proofs.PyBodyTiesC19', ['Mahotas.pybody_features_moments_moments_eq_model'])],
     'C06': [('Mahotas.Proofs.PyBodyTiesC06', ['Mahotas.pybody_convolve_gaussian_filter1d_eq_model',
                                               'Mahotas.pybody_convolve_laplacian_2D_eq_model'])],
 }
